@@ -13,10 +13,12 @@ Open Scope Z_scope.
 
 Section EdInv.
   Variable eqc : Z -> Z -> bool.
-  Notation ed := (ed eqc 1).
+  Variable IND : Z.
+  Hypothesis IND_pos : 1 <= IND.
+  Notation ed := (ed eqc IND).
 
   Lemma ed_snoc_inv A B c : ed A B c -> forall a x b y, A = a ++ [x] -> B = b ++ [y] ->
-    (eqc x y = true /\ ed a b c) \/ ed a b (c - 1) \/ ed a (b ++ [y]) (c - 1) \/ ed (a ++ [x]) b (c - 1).
+    (eqc x y = true /\ ed a b c) \/ ed a b (c - 1) \/ ed a (b ++ [y]) (c - IND) \/ ed (a ++ [x]) b (c - IND).
   Proof.
     induction 1 as [|a0 b0 c x0 y0 He H IH|a0 b0 c x0 y0 H IH|a0 b0 c x0 H IH|a0 b0 c y0 H IH|a0 b0 c c' H IH Hle];
       intros a x b y HA HB.
@@ -24,8 +26,8 @@ Section EdInv.
     - apply app_inj_tail in HA. apply app_inj_tail in HB. destruct HA as [-> ->]. destruct HB as [-> ->]. left. split; assumption.
     - apply app_inj_tail in HA. apply app_inj_tail in HB. destruct HA as [-> ->]. destruct HB as [-> ->]. right. left.
       replace (c + 1 - 1) with c by lia. exact H.
-    - apply app_inj_tail in HA. destruct HA as [-> ->]. subst b0. right. right. left. replace (c + 1 - 1) with c by lia. exact H.
-    - apply app_inj_tail in HB. destruct HB as [-> ->]. subst a0. right. right. right. replace (c + 1 - 1) with c by lia. exact H.
+    - apply app_inj_tail in HA. destruct HA as [-> ->]. subst b0. right. right. left. replace (c + IND - IND) with c by lia. exact H.
+    - apply app_inj_tail in HB. destruct HB as [-> ->]. subst a0. right. right. right. replace (c + IND - IND) with c by lia. exact H.
     - destruct (IH a x b y HA HB) as [[He H1]|[H1|[H1|H1]]].
       + left. split; [exact He | eapply ed_weak; eauto].
       + right. left. eapply ed_weak; eauto. lia.
@@ -33,29 +35,29 @@ Section EdInv.
       + right. right. right. eapply ed_weak; eauto. lia.
   Qed.
 
-  Lemma ed_drop_ref A b c : ed A b c -> forall a x, A = a ++ [x] -> ed a b (c + 1).
+  Lemma ed_drop_ref A b c : ed A b c -> forall a x, A = a ++ [x] -> ed a b (c + IND).
   Proof.
     induction 1 as [|a0 b0 c x0 y0 He H IH|a0 b0 c x0 y0 H IH|a0 b0 c x0 H IH|a0 b0 c y0 H IH|a0 b0 c c' H IH Hle]; intros a x HA.
     - destruct a; discriminate.
-    - apply app_inj_tail in HA. destruct HA as [-> ->]. apply (ed_ins eqc 1). exact H.
-    - apply app_inj_tail in HA. destruct HA as [-> ->]. eapply ed_weak; [apply (ed_ins eqc 1); exact H | lia].
+    - apply app_inj_tail in HA. destruct HA as [-> ->]. apply (ed_ins eqc IND). exact H.
+    - apply app_inj_tail in HA. destruct HA as [-> ->]. eapply ed_weak; [apply (ed_ins eqc IND); exact H | lia].
     - apply app_inj_tail in HA. destruct HA as [-> ->]. eapply ed_weak; [exact H | lia].
-    - replace (c + 1 + 1) with (c + 1 + 1) by lia. apply (ed_ins eqc 1). apply (IH a x HA).
+    - apply (ed_ins eqc IND). apply (IH a x HA).
     - eapply ed_weak; [apply (IH a x HA) | lia].
   Qed.
 
-  Lemma ed_drop_query a B c : ed a B c -> forall b y, B = b ++ [y] -> ed a b (c + 1).
+  Lemma ed_drop_query a B c : ed a B c -> forall b y, B = b ++ [y] -> ed a b (c + IND).
   Proof.
     induction 1 as [|a0 b0 c x0 y0 He H IH|a0 b0 c x0 y0 H IH|a0 b0 c x0 H IH|a0 b0 c y0 H IH|a0 b0 c c' H IH Hle]; intros b y HB.
     - destruct b; discriminate.
-    - apply app_inj_tail in HB. destruct HB as [-> ->]. apply (ed_del eqc 1). exact H.
-    - apply app_inj_tail in HB. destruct HB as [-> ->]. eapply ed_weak; [apply (ed_del eqc 1); exact H | lia].
-    - apply (ed_del eqc 1). apply (IH b y HB).
+    - apply app_inj_tail in HB. destruct HB as [-> ->]. apply (ed_del eqc IND). exact H.
+    - apply app_inj_tail in HB. destruct HB as [-> ->]. eapply ed_weak; [apply (ed_del eqc IND); exact H | lia].
+    - apply (ed_del eqc IND). apply (IH b y HB).
     - apply app_inj_tail in HB. destruct HB as [-> ->]. eapply ed_weak; [exact H | lia].
     - eapply ed_weak; [apply (IH b y HB) | lia].
   Qed.
 
-  Lemma ed_len_r : forall a b c, ed a b c -> a = [] -> zlen b <= c.
+  Lemma ed_len_r : forall a b c, ed a b c -> a = [] -> zlen b * IND <= c.
   Proof.
     induction 1; intros Ha; subst; try (destruct a; discriminate).
     - cbn; lia.
@@ -63,7 +65,7 @@ Section EdInv.
     - specialize (IHed eq_refl). lia.
   Qed.
 
-  Lemma ed_len_l : forall a b c, ed a b c -> b = [] -> zlen a <= c.
+  Lemma ed_len_l : forall a b c, ed a b c -> b = [] -> zlen a * IND <= c.
   Proof.
     induction 1; intros Hb; subst; try (destruct b; discriminate).
     - cbn; lia.
@@ -82,9 +84,10 @@ Section Opt.
   Notation m := (zlen s1).
   Notation n := (zlen s2).
   Notation k := (thr m).
-  Hypothesis IND1 : indel_cost cfg = 1.
+  Notation IND := (indel_cost cfg).
+  Hypothesis IND_pos : 1 <= IND.
   Hypothesis k_nonneg : 0 <= k.
-  Notation ed := (AlignDist.ed eqc 1).
+  Notation ed := (AlignDist.ed eqc IND).
 
   (** admissible starts: row 0 unless the alignment may start inside the reference (then column 0);
       column 0 unless it may start inside the query (then row 0) *)
@@ -104,10 +107,10 @@ Section Opt.
   Lemma slice_snoc2 qs j : 0 <= qs <= j - 1 -> j <= n -> zslice s2 qs j = zslice s2 qs (j - 1) ++ [znth 0 s2 (j - 1)].
   Proof. intros H1 H2. replace j with (j - 1 + 1) at 1 by lia. apply zslice_snoc; lia. Qed.
 
-  Lemma ed_ins_all1 b : ed [] b (zlen b).
-  Proof. eapply ed_weak; [apply (ed_ins_all eqc 1); lia | lia]. Qed.
-  Lemma ed_del_all1 a : ed a [] (zlen a).
-  Proof. eapply ed_weak; [apply (ed_del_all eqc 1); lia | lia]. Qed.
+  Lemma ed_ins_all1 b : ed [] b (zlen b * IND).
+  Proof. apply (ed_ins_all eqc IND); exact IND_pos. Qed.
+  Lemma ed_del_all1 a : ed a [] (zlen a * IND).
+  Proof. apply (ed_del_all eqc IND); exact IND_pos. Qed.
 
   (** the three ways an alignment can reach cell (i, j), plus the degenerate ones *)
   Lemma LB_cases i j rs qs c : 1 <= i <= m -> 1 <= j <= n -> adm rs qs -> 0 <= rs <= i -> 0 <= qs <= j ->
@@ -115,21 +118,21 @@ Section Opt.
     (rs <= i - 1 /\ qs <= j - 1 /\
        ((eqc (znth 0 s1 (i - 1)) (znth 0 s2 (j - 1)) = true /\ ed (zslice s1 rs (i - 1)) (zslice s2 qs (j - 1)) c) \/
         ed (zslice s1 rs (i - 1)) (zslice s2 qs (j - 1)) (c - 1) \/
-        ed (zslice s1 rs (i - 1)) (zslice s2 qs j) (c - 1) \/
-        ed (zslice s1 rs i) (zslice s2 qs (j - 1)) (c - 1))) \/
-    (rs = i /\ qs = 0 /\ start_in_ref cfg = true /\ j <= c) \/
-    (qs = j /\ rs = 0 /\ start_in_query cfg = true /\ i <= c).
+        ed (zslice s1 rs (i - 1)) (zslice s2 qs j) (c - IND) \/
+        ed (zslice s1 rs i) (zslice s2 qs (j - 1)) (c - IND))) \/
+    (rs = i /\ qs = 0 /\ start_in_ref cfg = true /\ j * IND <= c) \/
+    (qs = j /\ rs = 0 /\ start_in_query cfg = true /\ i * IND <= c).
   Proof.
     intros Hi Hj [Ha1 Ha2] Hr Hq He.
     destruct (Z.eq_dec rs i) as [->|Hne1].
     - right. left. destruct Ha1 as [H0|[Hs ->]]; [lia|]. rewrite zslice_empty in He.
-      pose proof (ed_len_r eqc _ _ _ He eq_refl) as Hl. rewrite zslice_length in Hl by lia. repeat split; auto; lia.
+      pose proof (ed_len_r eqc IND _ _ _ He eq_refl) as Hl. rewrite zslice_length in Hl by lia. repeat split; auto; lia.
     - destruct (Z.eq_dec qs j) as [->|Hne2].
       + right. right. destruct Ha2 as [H0|[Hs ->]]; [lia|]. rewrite zslice_empty in He.
-        pose proof (ed_len_l eqc _ _ _ He eq_refl) as Hl. rewrite zslice_length in Hl by lia. repeat split; auto; lia.
+        pose proof (ed_len_l eqc IND _ _ _ He eq_refl) as Hl. rewrite zslice_length in Hl by lia. repeat split; auto; lia.
       + left. split; [lia|]. split; [lia|].
         rewrite (slice_snoc1 rs i) in He by lia. rewrite (slice_snoc2 qs j) in He by lia.
-        destruct (ed_snoc_inv eqc _ _ _ He _ _ _ _ eq_refl eq_refl) as [[H1 H2]|[H1|[H1|H1]]].
+        destruct (ed_snoc_inv eqc IND _ _ _ He _ _ _ _ eq_refl eq_refl) as [[H1 H2]|[H1|[H1|H1]]].
         * left. split; assumption.
         * right. left. exact H1.
         * right. right. left. rewrite (slice_snoc2 qs j) by lia. exact H1.
@@ -143,19 +146,19 @@ Section Opt.
     destruct (LB_cases i j rs qs c Hi Hj Ha Hr Hq He) as [(H1 & H2 & [[_ Hm]|[Hs|[Hd|Hin]]])|[(-> & -> & Hs & Hc)|(-> & -> & Hs & Hc)]].
     - apply (H rs qs c Ha ltac:(lia) ltac:(lia) Hm).
     - pose proof (H rs qs (c - 1) Ha ltac:(lia) ltac:(lia) Hs). lia.
-    - rewrite (slice_snoc2 qs j) in Hd by lia. pose proof (ed_drop_query eqc _ _ _ Hd _ _ eq_refl) as Hd'.
-      replace (c - 1 + 1) with c in Hd' by lia. apply (H rs qs c Ha ltac:(lia) ltac:(lia) Hd').
-    - rewrite (slice_snoc1 rs i) in Hin by lia. pose proof (ed_drop_ref eqc _ _ _ Hin _ _ eq_refl) as Hd'.
-      replace (c - 1 + 1) with c in Hd' by lia. apply (H rs qs c Ha ltac:(lia) ltac:(lia) Hd').
+    - rewrite (slice_snoc2 qs j) in Hd by lia. pose proof (ed_drop_query eqc IND IND_pos _ _ _ Hd _ _ eq_refl) as Hd'.
+      replace (c - IND + IND) with c in Hd' by lia. apply (H rs qs c Ha ltac:(lia) ltac:(lia) Hd').
+    - rewrite (slice_snoc1 rs i) in Hin by lia. pose proof (ed_drop_ref eqc IND IND_pos _ _ _ Hin _ _ eq_refl) as Hd'.
+      replace (c - IND + IND) with c in Hd' by lia. apply (H rs qs c Ha ltac:(lia) ltac:(lia) Hd').
     - (* start (i, 0): use start (i-1, 0) *)
       assert (Ha' : adm (i - 1) 0) by (split; [destruct (Z.eq_dec (i - 1) 0); [left; assumption | right; split; auto] | left; reflexivity]).
-      pose proof (H (i - 1) 0 (j - 1) Ha' ltac:(lia) ltac:(lia)) as Hx. rewrite zslice_empty in Hx.
+      pose proof (H (i - 1) 0 ((j - 1) * IND) Ha' ltac:(lia) ltac:(lia)) as Hx. rewrite zslice_empty in Hx.
       assert (Hl : zlen (zslice s2 0 (j - 1)) = j - 1) by (rewrite zslice_length; lia).
-      specialize (Hx ltac:(pose proof (ed_ins_all1 (zslice s2 0 (j - 1))) as He'; rewrite Hl in He'; exact He')). lia.
+      specialize (Hx ltac:(pose proof (ed_ins_all1 (zslice s2 0 (j - 1))) as He'; rewrite Hl in He'; exact He')). nia.
     - assert (Ha' : adm 0 (j - 1)) by (split; [left; reflexivity | destruct (Z.eq_dec (j - 1) 0); [left; assumption | right; split; auto]]).
-      pose proof (H 0 (j - 1) (i - 1) Ha' ltac:(lia) ltac:(lia)) as Hx. rewrite zslice_empty in Hx.
+      pose proof (H 0 (j - 1) ((i - 1) * IND) Ha' ltac:(lia) ltac:(lia)) as Hx. rewrite zslice_empty in Hx.
       assert (Hl : zlen (zslice s1 0 (i - 1)) = i - 1) by (rewrite zslice_length; lia).
-      specialize (Hx ltac:(pose proof (ed_del_all1 (zslice s1 0 (i - 1))) as He'; rewrite Hl in He'; exact He')). lia.
+      specialize (Hx ltac:(pose proof (ed_del_all1 (zslice s1 0 (i - 1))) as He'; rewrite Hl in He'; exact He')). nia.
   Qed.
 
   (** one cell of the recurrence *)
@@ -164,28 +167,28 @@ Section Opt.
     LB (i - 1) (j - 1) (capk (cost diag)) -> LB i (j - 1) (capk (cost cur)) -> LB (i - 1) j (capk (cost prev)) ->
     LB i j (capk (cost (cell eqc cfg c2 r diag cur prev))).
   Proof.
-    intros Hi Hj Hr Hc2 Hd Hc Hp. unfold cell. rewrite IND1.
+    intros Hi Hj Hr Hc2 Hd Hc Hp. unfold cell.
     destruct (eqc r c2) eqn:Eq; cbn [cost].
     - apply diag_mono; assumption.
-    - assert (Hmin : forall x, x = cost diag + 1 \/ x = cost prev + 1 \/ x = cost cur + 1 ->
-                x <= cost diag + 1 -> x <= cost prev + 1 -> x <= cost cur + 1 -> LB i j (capk x)).
+    - assert (Hmin : forall x, x = cost diag + 1 \/ x = cost prev + IND \/ x = cost cur + IND ->
+                x <= cost diag + 1 -> x <= cost prev + IND -> x <= cost cur + IND -> LB i j (capk x)).
       { intros x _ H1 H2 H3 rs qs c Ha Hrr Hqq He. unfold capk in *.
         destruct (LB_cases i j rs qs c Hi Hj Ha Hrr Hqq He) as [(G1 & G2 & [[Hm _]|[Hs|[Hdl|Hin]]])|[(-> & -> & Hs & Hcc)|(-> & -> & Hs & Hcc)]].
         - subst r c2. congruence.
         - pose proof (Hd rs qs (c - 1) Ha ltac:(lia) ltac:(lia) Hs). lia.
-        - pose proof (Hp rs qs (c - 1) Ha ltac:(lia) ltac:(lia) Hdl). lia.
-        - pose proof (Hc rs qs (c - 1) Ha ltac:(lia) ltac:(lia) Hin). lia.
+        - pose proof (Hp rs qs (c - IND) Ha ltac:(lia) ltac:(lia) Hdl). lia.
+        - pose proof (Hc rs qs (c - IND) Ha ltac:(lia) ltac:(lia) Hin). lia.
         - assert (Ha' : adm i 0) by (split; [right; split; auto | left; reflexivity]).
-          pose proof (Hc i 0 (j - 1) Ha' ltac:(lia) ltac:(lia)) as Hx. rewrite zslice_empty in Hx.
+          pose proof (Hc i 0 ((j - 1) * IND) Ha' ltac:(lia) ltac:(lia)) as Hx. rewrite zslice_empty in Hx.
           assert (Hl : zlen (zslice s2 0 (j - 1)) = j - 1) by (rewrite zslice_length; lia).
-          specialize (Hx ltac:(pose proof (ed_ins_all1 (zslice s2 0 (j - 1))) as He'; rewrite Hl in He'; exact He')). lia.
+          specialize (Hx ltac:(pose proof (ed_ins_all1 (zslice s2 0 (j - 1))) as He'; rewrite Hl in He'; exact He')). nia.
         - assert (Ha' : adm 0 j) by (split; [left; reflexivity | right; split; auto]).
-          pose proof (Hp 0 j (i - 1) Ha' ltac:(lia) ltac:(lia)) as Hx. rewrite zslice_empty in Hx.
+          pose proof (Hp 0 j ((i - 1) * IND) Ha' ltac:(lia) ltac:(lia)) as Hx. rewrite zslice_empty in Hx.
           assert (Hl : zlen (zslice s1 0 (i - 1)) = i - 1) by (rewrite zslice_length; lia).
-          specialize (Hx ltac:(pose proof (ed_del_all1 (zslice s1 0 (i - 1))) as He'; rewrite Hl in He'; exact He')). lia. }
-      destruct ((cost diag + 1 <=? cost prev + 1) && (cost diag + 1 <=? cost cur + 1)) eqn:E1; cbn [cost].
+          specialize (Hx ltac:(pose proof (ed_del_all1 (zslice s1 0 (i - 1))) as He'; rewrite Hl in He'; exact He')). nia. }
+      destruct ((cost diag + 1 <=? cost prev + IND) && (cost diag + 1 <=? cost cur + IND)) eqn:E1; cbn [cost].
       + apply andb_prop in E1. destruct E1 as [E1 E2]. apply Z.leb_le in E1. apply Z.leb_le in E2. apply Hmin; auto; lia.
-      + destruct (cost prev + 1 <=? cost cur + 1) eqn:E2; cbn [cost].
+      + destruct (cost prev + IND <=? cost cur + IND) eqn:E2; cbn [cost].
         * apply Z.leb_le in E2. apply andb_false_iff in E1. apply Hmin; auto; lia.
         * apply Z.leb_gt in E2. apply andb_false_iff in E1. apply Hmin; auto; lia.
   Qed.
@@ -257,18 +260,18 @@ Section Opt.
     inversion HcolL as [|i0 e0 l0 Hc0 Holds]; subst i0 e0 l0.
     set (new0 := mkE _ _ _).
     assert (Hnew0 : LB 0 j (capk (cost new0))).
-    { subst new0. cbn [cost]. rewrite IND1. intros rs qs c Ha Hr Hq He. assert (rs = 0) by lia. subst rs. rewrite zslice_empty in He.
-      pose proof (ed_len_r eqc _ _ _ He eq_refl) as Hl. rewrite zslice_length in Hl by lia.
+    { subst new0. cbn [cost]. intros rs qs c Ha Hr Hq He. assert (rs = 0) by lia. subst rs. rewrite zslice_empty in He.
+      pose proof (ed_len_r eqc IND _ _ _ He eq_refl) as Hl. rewrite zslice_length in Hl by lia.
       destruct (start_in_query cfg) eqn:Esiq.
       - assert (Ha' : adm 0 (j - 1)) by (split; [left; reflexivity | destruct (Z.eq_dec (j - 1) 0); [left; assumption | right; split; auto]]).
-        pose proof (Hc0 0 (j - 1) 0 Ha' ltac:(lia) ltac:(lia)) as Hx. rewrite !zslice_empty in Hx. specialize (Hx (ed_nil eqc 1)).
-        unfold capk in *. lia.
+        pose proof (Hc0 0 (j - 1) 0 Ha' ltac:(lia) ltac:(lia)) as Hx. rewrite !zslice_empty in Hx. specialize (Hx (ed_nil eqc IND)).
+        unfold capk in *. nia.
       - destruct Ha as [_ [->|[Hs _]]]; [|congruence].
         assert (Ha' : adm 0 0) by (split; left; reflexivity).
-        pose proof (Hc0 0 0 (j - 1) Ha' ltac:(lia) ltac:(lia)) as Hx. rewrite zslice_empty in Hx.
+        pose proof (Hc0 0 0 ((j - 1) * IND) Ha' ltac:(lia) ltac:(lia)) as Hx. rewrite zslice_empty in Hx.
         assert (Hl' : zlen (zslice s2 0 (j - 1)) = j - 1) by (rewrite zslice_length; lia).
         specialize (Hx ltac:(pose proof (ed_ins_all1 (zslice s2 0 (j - 1))) as He'; rewrite Hl' in He'; exact He')).
-        unfold capk in *. lia. }
+        unfold capk in *. nia. }
     assert (Holen : length s1 = length olds) by (rewrite zlen_cons in Hlen; unfold zlen in Hlen; lia).
     assert (HBo : Forall (fun e => k < cost e) (skipn (Z.to_nat (last st)) olds)).
     { replace (Z.to_nat (last st + 1)) with (S (Z.to_nat (last st))) in HB by lia. exact HB. }
@@ -338,7 +341,7 @@ Section Opt.
       assert (Hc2' : c2 = znth 0 s2 (j - 1)).
       { unfold znth. destruct (j - 1 <? 0) eqn:E; [lia|]. congruence. }
       assert (Hjn : 1 <= j <= n) by (unfold zlen in *; lia).
-      destruct (column_step_d eqc thr cfg rawref s1 s2 ltac:(rewrite IND1; lia) c2 j st Hsd Hjn Hc2') as [Hs Hstop]. cbv zeta in Hs, Hstop.
+      destruct (column_step_d eqc thr cfg rawref s1 s2 IND_pos c2 j st Hsd Hjn Hc2') as [Hs Hstop]. cbv zeta in Hs, Hstop.
       pose proof (column_step_L c2 j st Hsd Hsl Hjn Hc2') as HsL.
       destruct (stopped (column_step eqc thr cfg rawref s1 n c2 j st)) eqn:Est.
       + destruct HsL as (H1 & _ & Hb). split; [exact Hb|]. exists j. split; [exact H1 | left; apply Hstop; reflexivity].
@@ -372,35 +375,35 @@ Section Opt.
     assert (Hinit : forall cnt lo, 0 <= lo -> lo + Z.of_nat cnt <= m + 1 -> colD eqc thr cfg s1 s2 0 lo (map (init_entry cfg 0) (zrange lo cnt))).
     { induction cnt as [|cn IH]; intros lo Hlo Hc; cbn [zrange map]; constructor; [|apply IH; lia].
       split; [apply init_entry_ok; lia|].
-      unfold init_entry, cellD. rewrite IND1. destruct (start_in_ref cfg), (start_in_query cfg); cbn [cost score origin]; unfold DELETION_SCORE, rs_of, qs_of.
+      unfold init_entry, cellD. destruct (start_in_ref cfg), (start_in_query cfg); cbn [cost score origin]; unfold DELETION_SCORE, rs_of, qs_of.
       all: repeat split; try nia.
       all: intros _.
-      all: (eapply ed_weak; [apply (ed_trivial eqc 1); lia|]).
+      all: (eapply ed_weak; [apply (ed_trivial eqc IND); exact IND_pos|]).
       all: rewrite !zslice_length by lia; nia. }
     assert (HinitL : forall cnt lo, 0 <= lo -> lo + Z.of_nat cnt <= m + 1 -> colL 0 lo (map (init_entry cfg 0) (zrange lo cnt))).
     { induction cnt as [|cn IH]; intros lo Hlo Hc; cbn [zrange map]; constructor; [|apply IH; lia].
       intros rs' qs' c' Ha Hr Hq He. assert (qs' = 0) by lia. subst qs'. rewrite zslice_empty in He.
-      pose proof (ed_len_l eqc _ _ _ He eq_refl) as Hl. rewrite zslice_length in Hl by lia.
-      unfold init_entry, capk. rewrite IND1. destruct Ha as [Ha1 _].
-      destruct (start_in_ref cfg) eqn:Esr, (start_in_query cfg); cbn [cost]; try lia.
-      all: destruct Ha1 as [->|[Hs _]]; try congruence; lia. }
+      pose proof (ed_len_l eqc IND _ _ _ He eq_refl) as Hl. rewrite zslice_length in Hl by lia.
+      unfold init_entry, capk. destruct Ha as [Ha1 _].
+      destruct (start_in_ref cfg) eqn:Esr, (start_in_query cfg); cbn [cost]; try nia.
+      all: destruct Ha1 as [->|[Hs _]]; try congruence; nia. }
     split.
     - replace (0 + 1 - 1) with 0 by lia. unfold AlignDist.SD; cbn [col last best].
       split; [apply Hinit; [lia | unfold zlen; lia]|]. split; [apply init_column_length|].
       split; [destruct (start_in_ref cfg); lia|]. split; [|left; reflexivity].
       unfold init_column. apply (Forall_skipn_nth (fun e => k < cost e) dummy). intros t Ht. rewrite map_length, zrange_length in Ht.
       rewrite (nth_indep _ dummy (init_entry cfg 0 0)) by (rewrite map_length, zrange_length; lia).
-      rewrite map_nth, Hnz by lia. unfold init_entry. rewrite IND1. destruct (start_in_ref cfg) eqn:Esr; [unfold zlen in *; lia|].
+      rewrite map_nth, Hnz by lia. unfold init_entry. destruct (start_in_ref cfg) eqn:Esr; [unfold zlen in *; lia|].
       assert (Htk : k + 2 <= Z.of_nat t) by (unfold zlen in *; lia).
-      destruct (start_in_query cfg); cbn [cost]; lia.
+      destruct (start_in_query cfg); cbn [cost]; nia.
     - replace (0 + 1 - 1) with 0 by lia. unfold SL; cbn [col last best].
       split; [apply HinitL; [lia | unfold zlen; lia]|]. split; [|left; reflexivity].
       destruct (start_in_ref cfg) eqn:Esr; [left; reflexivity|].
       destruct (Z_le_gt_dec m (k + 1)) as [Hle|Hgt]; [left; lia|]. right.
       unfold init_column. apply (Forall_skipn_nth (fun e => k < cost e) dummy). intros t Ht. rewrite map_length, zrange_length in Ht.
       rewrite (nth_indep _ dummy (init_entry cfg 0 0)) by (rewrite map_length, zrange_length; lia).
-      rewrite map_nth, Hnz by lia. unfold init_entry. rewrite IND1, Esr.
-      destruct (start_in_query cfg); cbn [cost]; lia.
+      rewrite map_nth, Hnz by lia. unfold init_entry. rewrite Esr.
+      destruct (start_in_query cfg); cbn [cost]; nia.
   Qed.
 
   Hypothesis thr_bound : forall L, thr L <= k.
@@ -432,27 +435,27 @@ Section Opt.
     assert (Hinit : forall cnt lo, 0 <= lo -> lo + Z.of_nat cnt <= m + 1 -> colD eqc thr cfg s1 s2 0 lo (map (init_entry cfg 0) (zrange lo cnt))).
     { induction cnt as [|cn IH]; intros lo Hlo Hc; cbn [zrange map]; constructor; [|apply IH; lia].
       split; [apply init_entry_ok; lia|].
-      unfold init_entry, cellD. rewrite IND1. destruct (start_in_ref cfg), (start_in_query cfg); cbn [cost score origin]; unfold DELETION_SCORE, rs_of, qs_of.
+      unfold init_entry, cellD. destruct (start_in_ref cfg), (start_in_query cfg); cbn [cost score origin]; unfold DELETION_SCORE, rs_of, qs_of.
       all: repeat split; try nia.
       all: intros _.
-      all: (eapply ed_weak; [apply (ed_trivial eqc 1); lia|]).
+      all: (eapply ed_weak; [apply (ed_trivial eqc IND); exact IND_pos|]).
       all: rewrite !zslice_length by lia; nia. }
     assert (HinitL : forall cnt lo, 0 <= lo -> lo + Z.of_nat cnt <= m + 1 -> colL 0 lo (map (init_entry cfg 0) (zrange lo cnt))).
     { induction cnt as [|cn IH]; intros lo Hlo Hc; cbn [zrange map]; constructor; [|apply IH; lia].
       intros rs' qs' c' Ha Hr Hq He. assert (qs' = 0) by lia. subst qs'. rewrite zslice_empty in He.
-      pose proof (ed_len_l eqc _ _ _ He eq_refl) as Hl. rewrite zslice_length in Hl by lia.
-      unfold init_entry, capk. rewrite IND1. destruct Ha as [Ha1 _].
-      destruct (start_in_ref cfg) eqn:Esr, (start_in_query cfg); cbn [cost]; try lia.
-      all: destruct Ha1 as [->|[Hs _]]; try congruence; lia. }
+      pose proof (ed_len_l eqc IND _ _ _ He eq_refl) as Hl. rewrite zslice_length in Hl by lia.
+      unfold init_entry, capk. destruct Ha as [Ha1 _].
+      destruct (start_in_ref cfg) eqn:Esr, (start_in_query cfg); cbn [cost]; try nia.
+      all: destruct Ha1 as [->|[Hs _]]; try congruence; nia. }
     assert (Hsd0 : SD (0 + 1 - 1) st0).
     { replace (0 + 1 - 1) with 0 by lia. subst st0. unfold AlignDist.SD; cbn [col last best].
       split; [apply Hinit; [lia | unfold zlen; lia]|]. split; [apply init_column_length|].
       split; [destruct (start_in_ref cfg); lia|]. split; [|left; reflexivity].
       unfold init_column. apply (Forall_skipn_nth (fun e => k < cost e) dummy). intros t Ht. rewrite map_length, zrange_length in Ht.
       rewrite (nth_indep _ dummy (init_entry cfg 0 0)) by (rewrite map_length, zrange_length; lia).
-      rewrite map_nth, Hnz by lia. unfold init_entry. rewrite IND1. destruct (start_in_ref cfg) eqn:Esr; [unfold zlen in *; lia|].
+      rewrite map_nth, Hnz by lia. unfold init_entry. destruct (start_in_ref cfg) eqn:Esr; [unfold zlen in *; lia|].
       assert (Htk : k + 2 <= Z.of_nat t) by (unfold zlen in *; lia).
-      destruct (start_in_query cfg); cbn [cost]; lia. }
+      destruct (start_in_query cfg); cbn [cost]; nia. }
     assert (Hsl0 : SL (0 + 1 - 1) st0).
     { replace (0 + 1 - 1) with 0 by lia. subst st0. unfold SL; cbn [col last best].
       split; [apply HinitL; [lia | unfold zlen; lia]|]. split; [|left; reflexivity].
@@ -460,8 +463,8 @@ Section Opt.
       destruct (Z_le_gt_dec m (k + 1)) as [Hle|Hgt]; [left; lia|]. right.
       unfold init_column. apply (Forall_skipn_nth (fun e => k < cost e) dummy). intros t Ht. rewrite map_length, zrange_length in Ht.
       rewrite (nth_indep _ dummy (init_entry cfg 0 0)) by (rewrite map_length, zrange_length; lia).
-      rewrite map_nth, Hnz by lia. unfold init_entry. rewrite IND1, Esr.
-      destruct (start_in_query cfg); cbn [cost]; lia. }
+      rewrite map_nth, Hnz by lia. unfold init_entry. rewrite Esr.
+      destruct (start_in_query cfg); cbn [cost]; nia. }
     assert (Hqsl : qsl = firstn (length qsl) (skipn (Z.to_nat (0 + 1 - 1)) s2)).
     { subst qsl. replace (0 + 1 - 1) with 0 by lia. rewrite firstn_length.
       destruct (Nat.le_ge_cases (Z.to_nat (max_n - 0)) (length (skipn (Z.to_nat 0) s2))) as [Hle|Hge].
@@ -470,7 +473,7 @@ Section Opt.
     assert (Hqlen : 0 + 1 - 1 + zlen qsl <= n).
     { subst qsl. unfold zlen at 1. rewrite firstn_length, skipn_length. unfold zlen in *. lia. }
     destruct (columns_L qsl (0 + 1) st0 Hsd0 Hsl0 ltac:(lia) Hqlen Hqsl) as (HbL & jf & HcolL & Hex). cbv zeta in *.
-    destruct (columns_d eqc thr cfg rawref s1 s2 ltac:(rewrite IND1; lia) qsl (0 + 1) st0 Hsd0 ltac:(lia) Hqlen Hqsl) as (_ & jf' & (HcolD & Hlen) & _). cbv zeta in *.
+    destruct (columns_d eqc thr cfg rawref s1 s2 IND_pos qsl (0 + 1) st0 Hsd0 ltac:(lia) Hqlen Hqsl) as (_ & jf' & (HcolD & Hlen) & _). cbv zeta in *.
     set (st := columns eqc thr cfg rawref s1 n qsl (0 + 1) st0) in *.
     set (bestf := if max_n =? n then _ else best st).
     assert (Hbf : bestL bestf).
@@ -499,36 +502,40 @@ End Opt.
 
 (** ---- Aligner.locate with its translation tables *)
 Theorem locate_opt thr cfg wq ref query rs re qs qe sc e c :
-  indel_cost cfg = 1 -> stop_in_query cfg = true -> 0 <= thr (zlen ref) -> (forall L, thr L <= thr (zlen ref)) ->
+  1 <= indel_cost cfg -> stop_in_query cfg = true -> 0 <= thr (zlen ref) -> (forall L, thr L <= thr (zlen ref)) ->
   locate thr cfg wq ref query = Some (rs, re, qs, qe, sc, e) ->
-  ed (loc_eqc cfg wq) 1 (zslice (loc_s1 cfg wq ref) rs re) (zslice (loc_s2 cfg wq query) qs qe) c -> e <= c.
+  ed (loc_eqc cfg wq) (indel_cost cfg) (zslice (loc_s1 cfg wq ref) rs re) (zslice (loc_s2 cfg wq query) qs qe) c -> e <= c.
 Proof.
   intros Hi Hs Hk Hb H Hed. unfold locate in H. fold (loc_s1 cfg wq ref) in H. fold (loc_s2 cfg wq query) in H. fold (loc_eqc cfg wq) in H.
   pose proof (loc_s1_len cfg wq ref) as Hlen.
   eapply (locate_core_opt (loc_eqc cfg wq) thr cfg ref (loc_s1 cfg wq ref) (loc_s2 cfg wq query)); eauto; rewrite ?Hlen; auto.
 Qed.
 
-(** ---- adapter classes whose aligner may stop anywhere in the read, indels enabled:
-    the reported errors are exactly the edit distance of the reported intervals *)
+(** ---- adapter classes whose aligner may stop anywhere in the read: the reported errors are
+    exactly the edit distance of the reported intervals (indel cost 1 with indels enabled, 100000
+    with indels disabled) *)
 From CV Require Import Generated.Flags Model.Adapters.
 
 Definition stops_in_query (ad : adapter) : bool := stop_in_query (ad_cfg ad).
 
+Lemma ad_indel_cost_pos ad : 1 <= indel_cost (ad_cfg ad).
+Proof. unfold ad_cfg, cfg_of. cbn [indel_cost]. destruct (a_indels ad); unfold INDEL_COST_ON, INDEL_COST_OFF; lia. Qed.
+
 Theorem match_to_opt thr ad read mt c :
-  uses_comparer ad = false -> a_indels ad = true -> stops_in_query ad = true ->
+  uses_comparer ad = false -> stops_in_query ad = true ->
   0 <= thr (zlen (a_seq ad)) -> (forall L, thr L <= thr (zlen (a_seq ad))) ->
   match_to thr ad read = Some mt ->
-  ed (loc_eqc (ad_cfg ad) (a_wq ad)) 1
+  ed (loc_eqc (ad_cfg ad) (a_wq ad)) (indel_cost (ad_cfg ad))
      (zslice (loc_s1 (ad_cfg ad) (a_wq ad) (a_seq ad)) (astart mt) (astop mt))
      (zslice (loc_s2 (ad_cfg ad) (a_wq ad) (ad_query ad read)) (rstart mt) (rstop mt)) c ->
   merrors mt <= c.
 Proof.
-  intros Hcmp Hind Hstop Hk Hb H Hed. unfold match_to in H.
+  intros Hcmp Hstop Hk Hb H Hed. unfold match_to in H.
   destruct (raw_locate thr ad read) as [[[[[[a0 a1] r0] r1] sc] e]|] eqn:Er; [|discriminate].
   inversion H; subst mt; clear H. cbn [astart astop rstart rstop merrors] in *.
-  assert (Hic : indel_cost (ad_cfg ad) = 1) by (unfold ad_cfg, cfg_of; cbn [indel_cost]; rewrite Hind; reflexivity).
+  pose proof (ad_indel_cost_pos ad) as Hic.
   assert (Hdirect : forall q, locate thr (ad_cfg ad) (a_wq ad) (a_seq ad) q = Some (a0, a1, r0, r1, sc, e) ->
-            ed (loc_eqc (ad_cfg ad) (a_wq ad)) 1 (zslice (loc_s1 (ad_cfg ad) (a_wq ad) (a_seq ad)) a0 a1) (zslice (loc_s2 (ad_cfg ad) (a_wq ad) q) r0 r1) c -> e <= c).
+            ed (loc_eqc (ad_cfg ad) (a_wq ad)) (indel_cost (ad_cfg ad)) (zslice (loc_s1 (ad_cfg ad) (a_wq ad) (a_seq ad)) a0 a1) (zslice (loc_s2 (ad_cfg ad) (a_wq ad) q) r0 r1) c -> e <= c).
   { intros q Hq Hd. eapply locate_opt; eauto. }
   unfold raw_locate in Er. unfold uses_comparer in Hcmp. unfold ad_query in Hed. fold (ad_cfg ad) in Er.
   destruct (a_type ad) eqn:Et; cbn [class_reversed class_upper_first] in *;
@@ -554,8 +561,8 @@ Proof.
   - eapply Hdirect; eauto.
   - eapply Hdirect; eauto.
   - eapply Hdirect; eauto.
-  - rewrite Hind in Er. eapply Hdirect; eauto.
-  - rewrite Hind in Er. eapply Hdirect; eauto.
+  - destruct (a_indels ad); [|discriminate]. eapply Hdirect; eauto.
+  - destruct (a_indels ad); [|discriminate]. eapply Hdirect; eauto.
 Qed.
 
 (** which classes that is: every class except the two that must end at the end of the read
@@ -568,18 +575,16 @@ Proof.
 Qed.
 
 Theorem match_to_exact thr ad read mt :
-  uses_comparer ad = false -> a_indels ad = true ->
+  uses_comparer ad = false ->
   match a_type ad with NonInternalBack | Suffix => False | _ => True end ->
   0 <= thr (zlen (a_seq ad)) -> (forall L, thr L <= thr (zlen (a_seq ad))) ->
   match_to thr ad read = Some mt ->
   let A := zslice (loc_s1 (ad_cfg ad) (a_wq ad) (a_seq ad)) (astart mt) (astop mt) in
   let B := zslice (loc_s2 (ad_cfg ad) (a_wq ad) (ad_query ad read)) (rstart mt) (rstop mt) in
-  ed (loc_eqc (ad_cfg ad) (a_wq ad)) 1 A B (merrors mt) /\
-  forall c, ed (loc_eqc (ad_cfg ad) (a_wq ad)) 1 A B c -> merrors mt <= c.
+  ed (loc_eqc (ad_cfg ad) (a_wq ad)) (indel_cost (ad_cfg ad)) A B (merrors mt) /\
+  forall c, ed (loc_eqc (ad_cfg ad) (a_wq ad)) (indel_cost (ad_cfg ad)) A B c -> merrors mt <= c.
 Proof.
-  intros Hcmp Hind Hcls Hk Hb H. cbv zeta. split.
-  - pose proof (match_to_dist thr ad read mt Hcmp Hk Hb H) as Hd.
-    assert (Hic : indel_cost (ad_cfg ad) = 1) by (unfold ad_cfg, cfg_of; cbn [indel_cost]; rewrite Hind; reflexivity).
-    rewrite Hic in Hd. exact Hd.
+  intros Hcmp Hcls Hk Hb H. cbv zeta. split.
+  - exact (match_to_dist thr ad read mt Hcmp Hk Hb H).
   - intros c Hc. eapply match_to_opt; eauto. apply classes_stop_in_query. exact Hcls.
 Qed.
